@@ -302,6 +302,14 @@ def async_case(draw, driver=None):
             inj.append({"t": -0.01, "kind": "stale-answer", "value": v})
         else:
             inj.append({"t": -0.01, "kind": "stale-answer", "value": v})
+    if drv in ("luba", "sci") and draw(st.integers(0, 3)) == 0:
+        # an answer nobody is waiting for any more (its query has long timed out) is reported while a command WITHOUT
+        # answer is being exchanged and the next callers queue behind it: it belongs to none of them
+        callers[0] = {"kind": "send", "cmds": [{"k": draw(st.sampled_from(["dapc", "off", "reset"])), "a": 1}], "t0": 0.0}
+        for c in callers[1:]:
+            c["t0"] = max(c["t0"], 0.0005)
+        inj.append({"t": draw(st.sampled_from([0.002, 0.005, 0.009])), "kind": "stale-answer", "value": draw(st.integers(0, 255))})
+        case.pop("coalesce", None)      # (a read that is held back would move the report out of that exchange)
     if drv == "luba" and draw(st.integers(0, 2)) == 0:
         # the gateway throws in an ADD DALI FRAME error response (buffer full / bus busy) while exchanges are running
         for _ in range(draw(st.integers(1, 3))):
